@@ -19,6 +19,7 @@ import VrlModel.Driver.C29f
 import VrlModel.Driver.C21
 import VrlModel.Driver.C19
 import VrlModel.Driver.C32
+import VrlModel.Driver.C33
 
 /-- Line protocol driver: one case per line `op <tab> arg…`, one reply line per case. -/
 def handlers : List (String → List String → Option String) := [
@@ -42,7 +43,8 @@ def handlers : List (String → List String → Option String) := [
   Driver.C29f.handle,
   Driver.C21.handle,
   Driver.C19.handle,
-  Driver.C32.handle
+  Driver.C32.handle,
+  Driver.C33.handle
 ]
 
 def dispatch (op : String) (args : List String) : String :=
